@@ -55,11 +55,22 @@ def _run(fn, arg, q):
         q.put((arg, "exc", f"{type(e).__name__}: {e}\n{traceback.format_exc()[-1500:]}"))
 
 
-def parallel_map(fn, args, procs=None, timeout=1500):
+def parallel_map(fn, args, procs=None, timeout=1500, retry=True):
     """Run fn(arg) for each arg in forked workers (closures allowed). Returns {arg: (status, result)}.
 
     status: "ok" | "exc" | "timeout" | "died".  args must be hashable and picklable (use indices).
+    Jobs that timed out or died (machine load, OOM killer) are retried ONCE, one at a time, with a fresh budget,
+    so that a loaded machine does not turn into a reported disagreement.
     """
+    res = _parallel_map(fn, args, procs, timeout)
+    if retry:
+        again = [a for a, (st, _) in res.items() if st in ("timeout", "died")]
+        if again:
+            res.update(_parallel_map(fn, again, 1, max(600, timeout // 2)))
+    return res
+
+
+def _parallel_map(fn, args, procs=None, timeout=1500):
     procs = procs or min(16, os.cpu_count() or 4)
     ctx = mp.get_context("fork")
     q = ctx.Queue()
